@@ -228,7 +228,7 @@ def run(chk, tier):
         for ty in ('time_exceeded::TimeExceededPacket', 'destination_unreachable::DestinationUnreachablePacket'):
             f = prog.find(r'%s::%s::split_payload_extension$' % (fam, ty))
             chk.fn_seen(f['path'])
-            eng = RangeEngine(prog, inline_depth=1, opaque=[r'::get_length$', r'Buffer::<.*>::as_slice$', r'extension_splitter::split$'])
+            eng = RangeEngine(prog, inline_depth=2, opaque=[r'::get_length$', r'Buffer::<.*>::as_slice$', r'extension_splitter::split$'])     # depth 2: the payload may come from the view's own payload_raw()
             A.eng = eng
             eng.reset_tables()
             st = St()
@@ -359,10 +359,23 @@ def run(chk, tier):
     cls_ = [f_ for p_, f_ in prog.fns.items() if re.search(r'TryFrom<.*ExtensionsPacket<.*>> for trippy_core::probe::Extensions>::try_from::\{closure#\d+\}$', p_)]
     cn = prog.variant_names('trippy_packet::icmp_extension::extension_object::ClassNum')
     MPLS = cn.index('MultiProtocolLabelSwitchingLabelStack')
-    okd, whyd, rows = bool(cls_), 'no per-object closure found', 0
+    conv_args = lambda c_, st_: [e7.sym_ref(st_, 'env'), ('sym', 'obj')]
+    if not cls_:
+        # the per-object conversion may be a named function handed to `map` instead of a closure: take whatever function try_from maps over the objects
+        ftf = [f_ for p_, f_ in prog.fns.items() if re.search(r'TryFrom<.*ExtensionsPacket<.*>> for trippy_core::probe::Extensions>::try_from$', p_)]
+        for f_ in ftf[:1]:
+            st_ = St()
+            e70 = Engine(prog, inline_depth=0)
+            for o in e70.run(f_, [('sym', 'value')], st_):
+                for c in user_calls(o, r'Iterator::map$'):
+                    fv = c[7][1]
+                    if isinstance(fv, tuple) and fv[0] == 'fn' and fv[1] in prog.fns and prog.fns[fv[1]] not in cls_:
+                        cls_.append(prog.fns[fv[1]])
+        conv_args = lambda c_, st_: [('sym', 'obj')]
+    okd, whyd, rows = bool(cls_), 'no per-object conversion (closure or function mapped over the objects) found', 0
     for c_ in cls_[:1]:
         st_ = St()
-        for o in e7.run(c_, [e7.sym_ref(st_, 'env'), ('sym', 'obj')], st_):
+        for o in e7.run(c_, conv_args(c_, st_), st_):
             d = [(vshow(a), v) for a, v, _ in o.st.decisions]
             val = vshow(o.value)
             cd_ = [v for a, v in d if a == 'discr(call:ExtensionObjectPacket::get_class_num(obj))']
